@@ -50,7 +50,7 @@ func init() {
 	mc.Def(mc.Check{
 		ID:    "C33",
 		Level: "exploration",
-		Rule: "bucket (Epoch, Open f4, Volume i4); CSV files of 0-3 data rows, fault-free or with ONE fault from {missing field, extra field, unparsable number, unparsable time, bare quote} at EVERY (row, field) position; imported through the client's \\\\load handler (real session code, API client bound to the server) and through loader.CSVtoNumpyMulti with chunk sizes {1,2,3,1000}; with a header row and with a column-name map. " +
+		Rule: "bucket (Epoch, Open f4, Volume i4); CSV files of 0-3 data rows, fault-free or with ONE fault from {missing field, extra field, unparsable number, unparsable time, bare quote, integer outside the column type's range} at EVERY (row, field) position; imported through the client's \\\\load handler (real session code, API client bound to the server) and through loader.CSVtoNumpyMulti with chunk sizes {1,2,3,1000}; with a header row and with a column-name map. " +
 			"oracle: an error is reported, or the bucket holds every data row with the parsed values. non-trivial = files with a fault",
 		Assume:   []string{"UTC", "time format 20060102 15:04:05", "CSV and control files live on the vos device (cmd/connect packages are os-rewritten)", "export hook VerifLoad in package session"},
 		QuickMax: 5 * time.Minute, ThorMax: 15 * time.Minute,
@@ -58,7 +58,7 @@ func init() {
 }
 
 func c33Enum(c *mc.Ctx, yield func(c33Spec)) {
-	faults := []string{"missing-field", "extra-field", "bad-number", "bad-time", "bare-quote"}
+	faults := []string{"missing-field", "extra-field", "bad-number", "bad-time", "bare-quote", "out-of-range"}
 	for _, hdr := range []bool{true, false} {
 		for _, chunk := range []int{0, 1, 2, 3, 1000} {
 			for rows := 0; rows <= 3; rows++ {
@@ -66,7 +66,7 @@ func c33Enum(c *mc.Ctx, yield func(c33Spec)) {
 				for _, f := range faults {
 					for r := 0; r < rows; r++ {
 						for fld := 0; fld < 3; fld++ {
-							if f == "bad-number" && fld == 0 || f == "bad-time" && fld != 0 {
+							if f == "bad-number" && fld == 0 || f == "bad-time" && fld != 0 || f == "out-of-range" && fld != 2 {
 								continue
 							}
 							yield(c33Spec{Rows: rows, Fault: f, FRow: r, FField: fld, Chunk: chunk, Header: hdr})
@@ -97,6 +97,9 @@ func c33File(s c33Spec) (text string, want [][3]string) {
 				f[s.FField] = "12x"
 			case "bad-time":
 				f[0] = "2021-13-45 99:99"
+			case "out-of-range":
+				f[2] = "3000000000" // a well-formed integer that does not fit the bucket's i4 column
+				want[r][2] = f[2]
 			case "bare-quote":
 				f[s.FField] = f[s.FField][:1] + "\"" + f[s.FField][1:]
 			}
@@ -205,12 +208,12 @@ func c33Run(c *mc.Ctx, s c33Spec) {
 		c.Violate("rows-dropped|"+faultName(s.Fault)+"|"+chunkCls, fmt.Sprintf("file %q has %d data rows, the import reported success but the bucket holds %d rows", text, s.Rows, n))
 		return
 	}
-	if err == nil && s.Fault == "" {
+	if err == nil && (s.Fault == "" || s.Fault == "out-of-range") {
 		oi, vi, ei := tab.Col("Open"), tab.Col("Volume"), tab.Col("Epoch")
 		for r := 0; r < s.Rows; r++ {
 			t, _ := time.Parse("20060102 15:04:05", want[r][0])
 			if tab.Rows[r][ei].(int64) != t.Unix() || fmt.Sprint(tab.Rows[r][oi]) != want[r][1] || fmt.Sprint(tab.Rows[r][vi]) != want[r][2] {
-				c.Violate("wrong-value|"+chunkCls, fmt.Sprintf("row %d loaded as %v, file says %v", r, tab.Rows[r], want[r]))
+				c.Violate("wrong-value|"+faultName(s.Fault)+"|"+chunkCls, fmt.Sprintf("row %d loaded as %v, file says %v", r, tab.Rows[r], want[r]))
 			}
 		}
 	}
